@@ -285,7 +285,7 @@ DIRECTED = [
     _f(_REG2, [2], 'complex128'), _f(_REG2, [], 'bool'), _f(_UNS2, [2], 'complex64'), _f(_UNS2, [], 'bool'),
     _f(_REG2, [], 'uint16'), _f(_REG2, [2], 'int8'), _f(_REG2, [], 'float16'),
     _f(_REG2, [2], noncontig=True), _f(_REG2, [2], newstyle=True), _f(_UNS2, [2], newstyle=True),
-    # mode bases (D14: sparse + image path; D30: tensor basis + image path)
+    # mode bases (D14: sparse + image path; D160: tensor basis + image path)
     _b(_REG2, 'dense'), _b(_REG2, 'sparse'), _b(_REG1, 'sparse', dt='float32'), _b(_REG3, 'sparse', dt='int64'),
     _b(_REG2, 'sparse', explicit_zero=True), _b(_REG2, 'dense', ts=[2]), _b(_REG1, 'dense', ts=[2, 2], dt='int32'),
     _b(_REG2, 'dense', nm=0), _b(_SEPR, 'dense'), _b(_SEPR, 'sparse'), _b(_UNS2, 'dense'), _b(_UNS2, 'sparse'),
